@@ -11,7 +11,10 @@ package forwarder
 //vf:assume C01: the next hop is a recording RoundTripper: what http.Transport does afterwards (Accept-Encoding: gzip, serialisation, connection reuse) and bodies near the 4 KiB / 32 KiB buffer sizes are outside
 
 import (
+	"io"
+	"net/http"
 	"strings"
+	"time"
 
 	"github.com/saucelabs/forwarder/header"
 	"github.com/saucelabs/forwarder/internal/martian"
@@ -215,7 +218,20 @@ func vfC01Scenario(tlsSession bool) {
 		wantScheme = "https"
 	}
 	conn := martian.NewVfConn([]byte(wire))
+	// the body may arrive at any later time: while the request is being forwarded (the next hop reads the body then)
+	// no header-phase read deadline is still armed on the client socket (read-header-timeout set, read-timeout unset:
+	// the defaults)
+	hp.proxy.ReadHeaderTimeout = time.Minute
+	armed := false
+	rt.respond = func(req *http.Request, n int) (*http.Response, error) {
+		if dl := conn.ReadDeadlines; len(dl) > 0 && !dl[len(dl)-1].IsZero() {
+			armed = true
+		}
+		return &http.Response{StatusCode: 200, Status: "200 OK", Proto: "HTTP/1.1", ProtoMajor: 1, ProtoMinor: 1,
+			Header: http.Header{"X-Origin": {"1"}}, Body: io.NopCloser(strings.NewReader("ok")), ContentLength: 2, Request: req}, nil
+	}
 	martian.VfServeConn(hp.proxy, conn)
+	vfrt.Assert(!armed, "c01/no-header-deadline-armed-while-the-body-is-forwarded")
 
 	want := 1
 	if second {
